@@ -184,9 +184,9 @@ def make_spec(bigsize=9000, nmsg=3, ndocs=4):
         {"p": "z.txt.gz", "k": "file",
          "d": {"b64": base64.b64encode(gzip.compress(b"compressed text\n" * 10, mtime=0)).decode()}},
         {"p": "bigscript.sh", "k": "file", "x": True,
-         "d": "#!/bin/sh\ni=0\nwhile [ $i -lt 400 ]; do echo \"line $i of a long script output 0123456789012345678901234567890123456789\"; i=$((i+1)); done\n"},
+         "d": "#!/bin/sh\ni=0\nwhile [ $i -lt %d ]; do echo \"line $i of a long script output 0123456789012345678901234567890123456789\"; i=$((i+1)); done\n" % max(400, bigsize // 50)},
         {"p": "bigz.txt.gz", "k": "file",
-         "d": {"b64": base64.b64encode(gzip.compress(b"a long compressed document line 0123456789\n" * 600, mtime=0)).decode()}},
+         "d": {"b64": base64.b64encode(gzip.compress(b"a long compressed document line 0123456789\n" * max(600, bigsize // 40), mtime=0)).decode()}},
         {"p": "gm", "k": "dir"},
         {"p": "gm/gophermap", "k": "file",
          "d": "Welcome\n0A file\tfile.txt\n1Docs\t/docs\nhSite\tURL:http://example.org/\nhHome page\tURL:\n"
@@ -235,7 +235,7 @@ def gen(seed, index, tier):
         "error": rng.choice(ERRORS),
         "partial": rng.choice([0, 0, 1, 3]),
         "servertype": rng.choice(["ThreadingTCPServer", "ForkingTCPServer"]),
-        "world": {"bigsize": rng.choice([100, 4096, 4097, 9000, 20000]), "nmsg": rng.randrange(2, 5),
+        "world": {"bigsize": rng.choice([100, 4096, 4097, 9000, 20000, 150000, 300000]), "nmsg": rng.randrange(2, 5),
                   "ndocs": rng.randrange(1, 8)},
         "sched_seed": rng.randrange(1 << 30),
     }
@@ -262,6 +262,18 @@ def SWEEP(tier):
 
 def _nfds():
     return len(simfs.real_listdir("/proc/self/fd"))
+
+
+def _children():
+    """Real child processes of this process (running or not yet reaped)."""
+    out = set()
+    for tid in simfs.real_listdir("/proc/self/task"):
+        try:
+            with simfs.real_open("/proc/self/task/%s/children" % tid) as f:
+                out.update(f.read().split())
+        except OSError:
+            pass
+    return out
 
 
 def execute(sc, tape=None):
@@ -304,6 +316,7 @@ def execute(sc, tape=None):
         with run:
             gc.collect()
             fds0 = _nfds()
+            kids0 = _children()
             fault = simnet.SendFault(k, sc["error"], sc["partial"])
             c = run.client(req, tls=tls, send_fault=fault, addr=("10.9.8.7", 4321))
             st = run.go()
@@ -312,6 +325,11 @@ def execute(sc, tape=None):
             recs = run.exception_records()
             want_cls = ERRCLASS[sc["error"]]
             sig = {"proto_family": proto.PROTOCOLS[sc["proto"]][1], "error": sc["error"]}
+            if fault.fired == 0 and c.send_calls != nsend:
+                # the response was cut into writes differently than in the fault-free run (output of a real child
+                # process read through a real pipe in chunks): the chosen write index was never reached
+                run.shutdown()
+                return common.result(None, None, {"write_index_not_reached": 1}, common.digest(refbytes), [], 0.0)
             if fault.fired == 0:
                 raise sched.HarnessError("send fault did not fire (k=%d nsend=%d)" % (k, nsend))
             escaped = [a for a in run.sim.actors if a is not run.accept_actor and getattr(a, "exc", None) is not None]
@@ -368,6 +386,15 @@ def execute(sc, tape=None):
                     viol = {"oracle": "fd-set-unchanged", "signature": dict(sig, oracle="fd-set-unchanged",
                                                                             kind=sc["kind"]),
                             "detail": "fd count %d -> %d" % (fds0, fds1)}
+                else:
+                    left = _children() - kids0
+                    if left:
+                        # a program started for the request (decompressor, script) was neither waited for nor
+                        # killed: it, its pipe and its place in the process table outlive the request
+                        viol = {"oracle": "child-processes-reaped",
+                                "signature": dict(sig, oracle="child-processes-reaped", kind=sc["kind"]),
+                                "detail": "%d child process(es) of the request left behind (running or unreaped) "
+                                          "after the worker finished" % len(left)}
             if viol is None:
                 # probe connection: the server is still serving
                 preq, ptls = proto.make_request("gopher", "/small.txt")
